@@ -1573,6 +1573,74 @@ def rule_r7_contains(chk, prog):
               loc=m.loc(co), nontrivial=True)
 
 
+def rule_r11(chk, prog):
+    chk.rule('C12.R11', 'an identity fits the field it is pickled into: the '
+             'C type of the shared id counter (multiprocessing.Value) is the '
+             'type of every struct field that carries a node id, in the '
+             'writer and in the reader')
+    import struct as _struct
+    m = prog.mod('nodes')
+    cd = m.cls('Node')
+    code = None
+    cst = None
+    for st in cd.body:
+        if isinstance(st, ast.Assign) and isinstance(
+                st.value, ast.Call) and (call_name(st.value) or '').endswith(
+                    'Value') and st.value.args and is_const(
+                        st.value.args[0]) and isinstance(
+                            st.value.args[0].value, str):
+            code, cst = st.value.args[0].value, st
+    if code is None:
+        raise AnalysisError('C12.R11: the shared id counter of Node '
+                            '(multiprocessing.Value with a literal type '
+                            'code) was not found')
+    n = 0
+    for q in ('Node.__getstate__', 'Node.__setstate__'):
+        f = m.func(q)
+        for c in ast.walk(f):
+            if not (isinstance(c, ast.Call) and call_name(c) in (
+                    'struct.pack', 'struct.unpack', 'struct.unpack_from',
+                    'struct.pack_into') and c.args and is_const(c.args[0])
+                    and isinstance(c.args[0].value, str)):
+                continue
+            fmt = c.args[0].value
+            chars = [ch for ch in fmt if ch.isalpha()]
+            idpos = []
+            if call_name(c) == 'struct.pack':
+                for i, a in enumerate(c.args[1:]):
+                    if isinstance(a, ast.Attribute) and a.attr == 'id':
+                        idpos.append(i)
+            else:
+                # the unpacked tuple: targets named _id / *id
+                par = getattr(c, '_parent', None)
+                if isinstance(par, ast.Assign) and isinstance(
+                        par.targets[0], (ast.Tuple, ast.List)):
+                    for i, t in enumerate(par.targets[0].elts):
+                        if isinstance(t, ast.Name) and t.id.lstrip(
+                                '_').endswith('id'):
+                            idpos.append(i)
+            for i in idpos:
+                if i >= len(chars):
+                    continue
+                n += 1
+                ch = chars[i]
+                try:
+                    same = _struct.calcsize('=' + ch) == _struct.calcsize(
+                        '=' + code) and ch.islower() == code.islower()
+                except _struct.error:
+                    same = False
+                chk.check('C12.R11', f'nodes.{q}',
+                          f'{call_name(c)}({fmt!r}) field {i}', same,
+                          f'the id counter is a C "{code}" '
+                          f'({m.loc(cst)}) but {call_name(c)}({fmt!r}) '
+                          f'carries the id in a "{ch}" field: once ids '
+                          'exceed the smaller type the tree cannot be sent '
+                          'to or from a worker (struct.error), or the id '
+                          'that arrives differs from the one sent',
+                          loc=m.loc(c), nontrivial=True)
+    chk.floor('C12.R11', 'struct fields that carry an id', n, 3)
+
+
 def run(tier):
     prog = Program()
     chk = Check(
@@ -1641,6 +1709,7 @@ def run(tier):
               'the unpickled input is keyed by a digest of the whole pickle, '
               'so the tree it works on equals the tree the main process '
               'sent (shared with C05.R4)', sub05)
+    chk.guard(rule_r11, chk, prog)
     extra = None
     if tier == 'thorough':
         from .. import selftest
